@@ -101,6 +101,7 @@ class CompiledLogicNet(torch.nn.Module):
             raise ValueError(
                 f"Cannot compile a {type(self.model).__name__}: its forward is not the plain chain of torch.nn.Sequential."
             )
+        self._refuse_patched(self.model)
         # Find GroupSum layer for num_classes
         for layer in self.model:
             if isinstance(layer, GroupSum):
@@ -113,11 +114,13 @@ class CompiledLogicNet(torch.nn.Module):
         # Parse all layers and track execution order
         for layer in self.model:
             for base in (LogicConv2d, LogicConv3d, OrPooling, LogicDense, GroupSum, torch.nn.Flatten, torch.nn.Identity):
-                if isinstance(layer, base) and type(layer).forward is not base.forward:
-                    # a subclass with its own forward computes something else than the layer that would be translated
+                if isinstance(layer, base) and type(layer) is not base:
+                    # a subclass may override forward, or any of the methods forward goes through (forward_python,
+                    # _raw_level_weights, ...): it computes something else than the layer that would be translated
                     raise ValueError(
-                        f"Cannot compile a {type(layer).__name__}: it overrides the forward of {base.__name__}."
+                        f"Cannot compile a {type(layer).__name__}: it is a subclass of {base.__name__}, not the layer itself."
                     )
+            self._refuse_patched(layer)
             if isinstance(layer, LogicConv2d):
                 conv_info = self._extract_conv_layer_info(layer)
                 self.conv_layers.append(conv_info)
@@ -181,6 +184,15 @@ class CompiledLogicNet(torch.nn.Module):
                 self.input_shape = (first_linear.in_dim,)
 
         self._validate_structure()
+
+    @staticmethod
+    def _refuse_patched(module):
+        """A module whose forward was replaced on the instance, or that carries forward hooks, computes something else than
+        its class says; the translation follows the class."""
+        if "forward" in vars(module) or module._forward_hooks or module._forward_pre_hooks:
+            raise ValueError(
+                f"Cannot compile a {type(module).__name__} whose forward was replaced on the instance or that has forward hooks."
+            )
 
     def _validate_structure(self):
         """Refuse models whose structure the code generator cannot translate faithfully."""
